@@ -154,6 +154,21 @@ def appendSubAsWritten (s src : DStr) (pos : Nat) (count : Option Nat) : Option 
               else { r with size := (s.size + (2^64 - 1)) % 2^64 }
     | some _ => r
 
+/-- `erase(iterator theFirst, iterator theLast)` after the repair `proposed/C20-domstring-erase-range.diff`
+(`m_size = m_data.size() - 1` only when there is a buffer) -/
+def eraseRange (s : DStr) (a b : Nat) : Option DStr :=
+  (Vec.erase s.data a b).map fun v => ⟨v, if v.items.length = 0 then 0 else v.items.length - 1⟩
+
+/-- … **as written**: `m_size = m_data.size() - 1` in `size_t` arithmetic, also for a string that has
+no buffer (`erase(begin(), end())` on a default-constructed string). -/
+def eraseRangeAsWritten (s : DStr) (a b : Nat) : Option DStr :=
+  (Vec.erase s.data a b).map fun v => ⟨v, (v.items.length + (2^64 - 1)) % 2^64⟩
+
+/-- `assign(iterator theFirst, iterator theLast)` with the range outside this string -/
+def assignIt (s : DStr) (xs : List Nat) : Option DStr :=
+  (Vec.assign (Vec.reserve s.data (xs.length + 1)) xs).bind fun v1 =>
+  (Vec.pushBack v1 0).map fun v2 => ⟨v2, v2.items.length - 1⟩
+
 /-- `operator[]` -/
 def get (s : DStr) (i : Nat) : Option Nat := s.data.items[i]?
 
